@@ -230,14 +230,20 @@ def history_dependent(mod, prop, base, tier, index, case, od, budget=60):
     return pred + [case]
 
 
+MINIMISE_WALL = 240.0
+
+
 def minimise_with_accept(mod, case, oracle, accept, budget=400):
+    """Greedy one-step reduction. The wall cap only decides how far a slow case (a runaway parse costs seconds per
+    execution) is shrunk, never the verdict; whatever is written replays exactly."""
     execs = 0
     cur = case
     improved = True
-    while improved and execs < budget:
+    t0 = time.time()
+    while improved and execs < budget and time.time() - t0 < MINIMISE_WALL:
         improved = False
         for cand in mod.shrink(cur):
-            if execs >= budget:
+            if execs >= budget or time.time() - t0 >= MINIMISE_WALL:
                 break
             execs += 1
             out = core.run_case(mod, cand)
@@ -331,8 +337,10 @@ def main(argv):
         print("unknown property %s" % prop)
         return 2
     if "replay" in opts:
+        core.apply_mem_cap()
         return do_replay(prop, opts["replay"])
     if "run-history" in opts:
+        core.apply_mem_cap()
         mod = load_mod(prop)
         with open(opts["run-history"]) as f:
             cases = json.load(f)["cases"]
